@@ -17,25 +17,35 @@ def gen(rng, tier):
     cases = []
     lens = [0, 1, 8, 31, 32, 33, 64, 65, 100, 200]
     def plain(n): return bytes(rng.randrange(1, 256) for _ in range(n))
-    def add(ops, cls): cases.append(Case("sshist " + " ".join(ops), cls, any(o[0] in "SI" and len(o) > 3 for o in ops)))
+    def add(ops, cls): cases.append(Case("sshist " + " ".join(ops), cls, any(o[0] in "SsbBIijJ" and len(o) > 3 for o in ops)))
     for n in lens:
         add(["S:" + hexs(plain(n))], "set len%s" % lcls(n))
         add(["S:" + hexs(plain(n)), "R"], "set-rotate len%s" % lcls(n))
         add(["S:" + hexs(plain(n)), "R", "R", "R"], "set-rotate3 len%s" % lcls(n))
         add(["I:" + hexs(plain(n)), "R", "O"], "movein-rotate-moveout len%s" % lcls(n))
         add(["S:" + hexs(plain(n)), "C", "R"], "set-clear-rotate len%s" % lcls(n))
+        f = "sbBijJ"[lens.index(n) % 6]
+        add([f + ":" + hexs(plain(n)), "X", "R", "M", f + ":" + hexs(plain(n // 2))], "forms %s-X-R-M len%s" % (f, lcls(n)))
     for _ in range(40 if tier == "quick" else 400):
         k = rng.randrange(2, 11 if tier == "quick" else 25); ops = []
         for _j in range(k):
-            c = rng.choice("SSSRRRCIO")
-            ops.append(c + ":" + hexs(plain(rng.choice(lens))) if c in "SI" else c)
+            c = rng.choice("SSsbBRRRCIijJOXM")
+            ops.append(c + ":" + hexs(plain(rng.choice(lens))) if c in "SsbBIijJ" else c)
         add(ops, "hist " + "".join(o[0] for o in ops)[:12])
+    # fault sequences: every allocation of set / rotate_nonce fails in turn; afterwards the stored bytes still do not contain the plaintext
+    # (the sweep also checks what C20 demands: bad_alloc, no leak, previous/new bytes or an integrity error)
+    for n in [16, 32, 33, 80, 200]:
+        p1 = plain(n); p2 = plain(rng.choice([16, 40, 100]))
+        for api in ("ss_rotate", "ss_rotate_revealed", "ss_set", "ss_rotate_twice"):
+            cases.append(Case("oom %s %s %s" % (api, hexs(p1), hexs(p2)), "oom %s len%s" % (api, lcls(n)), True))
     return cases
 
 STEP = re.compile(r"ct=(\S+?),nonce=(\S+?),tag=(\S+?),reveal=(.*?),heap=(\w+),wipe=(\w+),opaque=(\w+),tamper=(\S+)")
 
 def derive(case, raw):
     """Build the model's input from what the implementation reports (process key, nonces), and the canonical implementation line."""
+    if not case.line.startswith("sshist"):
+        return (case.line, raw, case.line)          # allocation-failure sweeps: the model's verdict line is compared as it is
     parts = [p.strip() for p in raw.split("|")]
     ops = case.line.split()[1:]
     if not parts or not parts[0].startswith("pk=") or len(parts) != len(ops) + 1:
@@ -46,8 +56,10 @@ def derive(case, raw):
         m = STEP.match(st)
         if not m: return ("ssmodel 00 C", "UNPARSABLE " + raw[:200])
         nonce = m.group(2)
-        if o[0] in "SI": mops.append("%s:%s:%s" % (o[0], nonce, o[2:])); cur = bytes.fromhex(o[2:]) if o[2:] != "-" else b""
+        if o[0] in "SsbBIijJ":      # every set() form is the model's set; every constructor moved in is the model's move-in
+            mops.append("%s:%s:%s" % ("S" if o[0] in "SsbB" else "I", nonce, o[2:])); cur = bytes.fromhex(o[2:]) if o[2:] != "-" else b""
         elif o[0] == "R": mops.append("R:" + nonce)
+        elif o[0] in "XM": mops.append("N")
         else: mops.append(o[0]); cur = b""
         canon.append("ct=%s,nonce=%s,tag=%s,reveal=%s,expected=%s,heap=%s,wipe=%s,opaque=%s,tamper=%s" %
                      (m.group(1), m.group(2), m.group(3), m.group(4), hexs(cur), m.group(5), m.group(6), m.group(7), m.group(8)))
